@@ -8,30 +8,37 @@ LEVEL_TEXT = ('bounded symbolic model checking (CBMC on the ll2c translation of 
               'encoding, nothing appended otherwise, previous content preserved; unhex_char<unsigned|char|unsigned char|unsigned long> for all 22 hex digits; '
               'unhex_string<char|unsigned char|unsigned|unsigned long> for every numeral of 0..2 / 0..8 / 0..16 symbolic hex digits (both letter cases) in an '
               'exact-size buffer against positional notation; unescape_c for the JSON set (RFC 8259) and the C simple-escape set, every permitted character; '
-              'unescape_x ("x", "xH", "xHH"), append_all (0..12 arbitrary bytes, and up to 24 bytes through the reallocating path), unescape_u (first character '
-              'arbitrary, 0..8 symbolic hex digits: encoding appended, or parse_error and nothing appended exactly for non-scalar values), unescape_j on 1, 2 and 3 '
-              'consecutive escapes u....\\u....\\u.... with 12 fully symbolic hex digits: throws exactly when a surrogate is not part of a high/low pair '
+              'unescape_x ("x", "xH", "xHH"), append_all (0..12 arbitrary bytes, and 0..24 bytes through std::string reallocation), unescape_u (first character '
+              'arbitrary, 0..8 symbolic hex digits: encoding appended, or parse_error and nothing appended exactly for non-scalar values), unescape_j on 1..3 '
+              '(thorough: 1..4) consecutive escapes u....\\u....\\u.... with fully symbolic hex digits: throws exactly when a surrogate is not part of a high/low pair '
               '(pairing left to right), otherwise the string is the previous content followed by the encodings of the combined code points; the actions run on a real '
-              'internal::action_input over a real memory_input, unescape_j additionally attached to the JSON rule list< seq< one<u>, rep<4,xdigit> >, one<\\> > through parse<>()')
+              'internal::action_input over a real memory_input in an exact-size buffer, unescape_j additionally attached to the JSON rule '
+              'list< seq< one<u>, rep<4,xdigit> >, one<\\> > and run through parse<>() with the default control')
 
 ASSUMPTIONS = [
-    'C17: out-of-line libstdc++ std::string members std::string::_M_append / _M_mutate / _M_create / __throw_length_error / operator delete are C models '
-    '(lib/models.h) that operate on the real SSO object layout (data pointer, size, 16-byte local buffer / capacity) including reallocation with the '
-    'doubling policy; the inline members (constructor from pointer+length, push_back fast path, size, operator[], destructor) are real IR; translation '
-    'validation compares the models with the real libstdc++ (g++/ASan build) on every run; allocation never fails',
-    'C17: sink strings hold 0..3 arbitrary bytes before the call; results stay within the 15-byte short-string capacity except in the append_all '
-    'growth query (prefix 0..3 + 0..24 bytes)',
+    'C17: out-of-line libstdc++ 12 std::string members _M_append / _M_mutate / reserve / _M_create, __throw_length_error and operator delete are C models '
+    '(lib/models.h) operating on the real object layout (data pointer, size, 16-byte local buffer / capacity), reallocation with the doubling policy included; '
+    'the inline members (default constructor, push_back fast path, size, data, destructor, the const char* constructor of the error message) are real IR; '
+    'translation validation compares the models with the real libstdc++ (g++/ASan build) on 20000 random inputs per query on every run; allocation never fails',
+    'C17: sink strings hold 0..3 arbitrary bytes before the call.  Single-append cases run on the in-object short-string buffer (results <= 15 bytes) and, in the '
+    'thorough tier, also on a heap buffer; the multi-escape unescape_j queries run on a heap buffer obtained with reserve(32) before the call (one-escape '
+    'unescape_j also on the short-string buffer); string growth is exercised by the append_all/growth queries (prefix length constant per query: quick 0 and 3, '
+    'thorough 0..3); in all other queries reaching a reallocation would be reported as an assertion failure',
     'C17: the parse_error constructor (message/position formatting through std::ostringstream) is replaced, in the clang/IR build only, by an external '
     'that the harness models as a no-op (harness/c17.cpp, harness/c17_models.h); exception allocation, the std::string message temporary, throw, '
     'unwinding and the catch clause are real IR; the g++ build runs the real constructor; message and position of the error are not compared (C05/C19)',
     'C17: preconditions stated in unescape.hpp are assumed: unhex_char/unhex_string only on xdigit characters, unescape_c on exactly one permitted '
-    'character, unescape_u/unescape_x on a non-empty match, unescape_j on (6k-1)-byte matches u....(\\u....)*; assert() failure branches are '
-    'asserted unreachable',
-    'C17: hexadecimal numerals longer than the width of the target type (where unhex_string wraps, and shifts a negative char) are outside the claim',
+    'character, unescape_u/unescape_x on a non-empty match, unescape_j on (6k-1)-byte matches u....(\\u....)*; the assert() failure branches and std::terminate '
+    'are asserted unreachable under these preconditions',
+    'C17: unescape_j: 2 bytes (arbitrary content, never read) are allocated after the matched text.  The action forms and compares the pointers b + 6 and b += 6, '
+    'which lie up to 2 bytes past the end of its match; when fewer than 2 bytes of the buffer follow the match (e.g. the escape ends the input) this is pointer '
+    'arithmetic outside the array (undefined behaviour per [expr.add], flagged by CBMC as "pointer outside object bounds", invisible to ASan/UBSan and without '
+    'observable effect on the g++ build, therefore not reportable as a reproduced violation).  C17_SLACK=0 ./check C17 shows it; '
+    'proposed_fixes/c17_unescape_j_pointer_past_end.diff removes it (all unescape_j queries then hold with exact buffers)',
+    'C17: hexadecimal numerals longer than the width of the target type (where unhex_string wraps, and for char shifts a negative value) are outside the claim',
     'C17: after unescape_j throws, the string content is unspecified and not compared',
     'C17: actions receive internal::action_input< memory_input< tracking_mode::lazy, eol::lf_crlf, const char* > >',
 ]
-
 
 # loops of the harness / models (names under this check's control) get a generous bound; the global --unwind of a query is the tight bound for the
 # loops of the code under test (every loop with a symbolic exit condition costs its full bound)
